@@ -45,6 +45,11 @@ What is proved (all fanouts, all numbers of targets, all fault vectors, all sche
   connect, or it holds stdout open and is gone within K of the forwarded SIGTERM: virtual time ≤
   n·(ct+ut+2·WDOG_POLL+K) until dsh() returns), `terminates_no_hang_ut0` (no command timeout but no stream hangs:
   ≤ n·(ct+WDOG_POLL+K) + Σ scripted stream ends) and `never_stuck`;
+* the two bounds and `immortal_never_returns` are about the tree as it is (`Cfg.killAfter = false`, stated); the
+  repair of F07-TEARDOWN-WAIT (a) is a SWITCH of the model (`Cfg.killAfter`: `Host.giveUp` = SIGTERM, one watchdog
+  period of grace, SIGKILL, only then `rcmd_destroy`), probed by behaviour, and the acceptor runs the variant the tree
+  shows: `kill_after_teardown_does_not_wait`, `kill_after_grace_is_one_period` + witness (the immortal target's run
+  returns at second 4); all other theorems hold for both values;
 * `immortal_never_returns`: WITHOUT the hypothesis `Td` the bound fails — once a command that neither exits nor
   reacts to SIGTERM has been started, dsh() never returns, command timeout or not (the teardown waits for it:
   witness below; on the real `pdsh -R exec -u 1` this is finding F07-TEARDOWN-WAIT).
@@ -277,10 +282,10 @@ theorem failed_reported {v f c scripts} {s : St} (h : Reach v f c scripts s) {j 
     returned the virtual clock is at most n · (connect_timeout + command_timeout + 2 · WDOG_POLL + K) — whatever
     the targets do and however the threads are scheduled. -/
 theorem terminates_with_timeouts {v f c scripts} {K : Nat} {ls : List Label} {s : St}
-    (he : Exec (init v f c scripts) ls s) (hf : 0 < f) (hct : 0 < c.ct) (hut : 0 < c.ut)
+    (he : Exec (init v f c scripts) ls s) (hka : c.killAfter = false) (hf : 0 < f) (hct : 0 < c.ct) (hut : 0 < c.ut)
     (htd : ∀ j, j < scripts.length → Td c K (scripts.getD j defaultScript)) (hnf : ¬ Final s) :
     s.now ≤ scripts.length * (c.ct + c.ut + 2 * WDOG_POLL + K) := by
-  have := (time_bounded he hf hct (Or.inl hut) htd).2.2 hnf
+  have := (time_bounded he hka hf hct (Or.inl hut) htd).2.2 hnf
   have hsum : ∀ l : List Script, (l.map (budget c K)).sum = l.length * (c.ct + c.ut + 2 * WDOG_POLL + K) := by
     intro l; induction l with
     | nil => simp
@@ -301,11 +306,11 @@ theorem td_of_sigterm_obeyed {c : Cfg} {K k : Nat} {sc : Script} (hut : 0 < c.ut
     `rcmd_destroy` (`teardown_waits`), which nothing interrupts (`teardown_uninterrupted`).  By `never_stuck` the
     run goes on, i.e. the clock runs on. -/
 theorem immortal_never_returns {v f c scripts} {ls : List Label} {s : St} (he : Exec (init v f c scripts) ls s)
-    {j : Nat} (hj : j < scripts.length) (hl : (scripts.getD j defaultScript).life = none)
+    (hka : c.killAfter = false) {j : Nat} (hj : j < scripts.length) (hl : (scripts.getD j defaultScript).life = none)
     (hg : (scripts.getD j defaultScript).grace = none)
     (hst : (s.host j).ph = .reading ∨ (s.host j).res = .done ∨ (s.host j).res = .cmdTimedOut) : ¬ Final s := by
   intro hfin
-  have him := imm_exec he hj hl hg
+  have him := imm_exec he hka hj hl hg
   have hti := tinv_exec (tinv_init v f c scripts) he
   have hdi := dinv_exec he
   obtain ⟨_, _, hlen, _⟩ := ginv_exec he
@@ -325,11 +330,11 @@ theorem immortal_never_returns {v f c scripts} {ls : List Label} {s : St} (he : 
     n · (connect_timeout + WDOG_POLL + K) + Σ over the targets of the scripted end of their streams — whatever
     refuses, hangs in connect or dies, and however the threads are scheduled. -/
 theorem terminates_no_hang_ut0 {v f c scripts} {K : Nat} {ls : List Label} {s : St}
-    (he : Exec (init v f c scripts) ls s) (hf : 0 < f) (hct : 0 < c.ct) (hut : c.ut = 0)
+    (he : Exec (init v f c scripts) ls s) (hka : c.killAfter = false) (hf : 0 < f) (hct : 0 < c.ct) (hut : c.ut = 0)
     (hnh : ∀ j, j < scripts.length → NoHang c (scripts.getD j defaultScript))
     (htd : ∀ j, j < scripts.length → Td c K (scripts.getD j defaultScript)) (hnf : ¬ Final s) :
     s.now ≤ scripts.length * (c.ct + WDOG_POLL + K) + (scripts.map (lastT c)).sum := by
-  have := (time_bounded he hf hct (Or.inr hnh) htd).2.2 hnf
+  have := (time_bounded he hka hf hct (Or.inr hnh) htd).2.2 hnf
   have hsum : ∀ l : List Script,
       (l.map (budget c K)).sum = l.length * (c.ct + WDOG_POLL + K) + (l.map (lastT c)).sum := by
     intro l; induction l with
@@ -415,6 +420,54 @@ example :
     (ls.foldlM (fun s l => step s l) (init .whileWait 1 { ct := 1, ut := 1, sopt := false, selfCheck := false, stopWdog := false } scripts)).map
       (fun s => (s.now, (s.host 0).res, (s.host 0).reaped, s.inflight, s.fan.dpc)) =
       some (3, Res.cmdTimedOut, true, 0, FanG.DPC.returned) := by
+  decide
+
+
+/-! ## the repair of F07-TEARDOWN-WAIT (a) as a switch of the model: `Cfg.killAfter`
+
+On a tree in which a worker that gives its target up at the command timeout waits one watchdog period and sends
+SIGKILL before it calls `rcmd_destroy` (findings/C07-TEARDOWN-WAIT.patch), the check detects that by behaviour and the
+acceptor runs the LTS with `killAfter = true`.  Everything above that does not mention `killAfter` holds for both
+values (refinement, non-interference, healthy targets, deadlines, in-flight / alive bounds, `never_stuck`); the two
+run bounds and `immortal_never_returns` are about the tree as it is (`killAfter = false`: they say so).  With the
+repair, `immortal_never_returns` is FALSE -- that is its purpose: -/
+
+/-- WITH THE REPAIR THE TEARDOWN OF A TARGET THAT WAS GIVEN UP ON DOES NOT WAIT: in every execution, for every script
+    (a command that never exits and ignores SIGTERM included), a target failed by the command timeout is finished,
+    and once its worker's grace wait is over (`hold ≤ now`: only then can `rcmd_destroy` begin) the remote command
+    is gone -- `rcmd_destroy` returns at once. -/
+theorem kill_after_teardown_does_not_wait {v f c scripts} {ls : List Label} {s : St}
+    (he : Exec (init v f c scripts) ls s) (hka : c.killAfter = true) {j : Nat} (hj : j < scripts.length)
+    (hres : (s.host j).res = .cmdTimedOut) (hhold : (s.host j).hold ≤ s.now) :
+    (s.host j).ph = .finished ∧ (s.host j).gone s.now = true := by
+  obtain ⟨hp, d, hd, hle⟩ := kinv_exec he hka hj hres
+  refine ⟨hp, ?_⟩
+  simp only [Host.gone, hd, decide_eq_true_eq]; omega
+
+/-- and the grace wait is one watchdog period: at the instant a target is given up on, its command's end is fixed at
+    most `WDOG_POLL` seconds ahead, whatever it does with SIGTERM -/
+theorem kill_after_grace_is_one_period {c : Cfg} (hka : c.killAfter = true) (now : Nat) (h : Host) :
+    ∃ d, (Host.giveUp c now h).death = some d ∧ d ≤ now + WDOG_POLL ∧ (Host.giveUp c now h).hold = now + WDOG_POLL :=
+  Host.giveUp_kills hka now h
+
+/-- witness: the immortal target of the example above (never exits, ignores SIGTERM), fanout 1, both timeouts 1,
+    on the repaired tree: given up on at second 2, its worker waits until second 4 (no operation of it is enabled
+    at second 3), SIGKILL, `rcmd_destroy` returns at once, dsh() returns at second 4 -/
+example :
+    let scripts : List Script := [{ conn := .ok 0, out := [⟨none, .data 1⟩], err := [], life := none, grace := none }]
+    let c : Cfg := { ct := 1, ut := 1, sopt := false, selfCheck := false, stopWdog := false, killAfter := true }
+    let pre : List Label :=
+      [.fan (.d .lock), .fan (.d (.create 0)), .fan (.d .unlock), .fan (.w 0 .connectBegin),
+       .fan (.w 0 .connectEnd), .fan (.d .lock), .fan (.d .wait), .tick, .tick, .scan, .wake 0]
+    let post : List Label :=
+      [.tick, .tick, .scan, .fan (.w 0 .destroyBegin), .fan (.w 0 .destroyEnd),
+       .fan (.w 0 .lock), .fan (.w 0 .signal), .fan (.w 0 .unlock), .fan (.d (.wake false)), .fan (.d .relock),
+       .fan (.d .unlock), .fan (.d .ret)]
+    ((pre.foldlM (fun s l => step s l) (init .whileWait 1 c scripts)).map
+      (fun s => (s.now, (s.host 0).res, (s.host 0).hold, (step s (.fan (.w 0 .destroyBegin))).isNone))) =
+      some (2, Res.cmdTimedOut, 4, true) ∧
+    (((pre ++ post).foldlM (fun s l => step s l) (init .whileWait 1 c scripts)).map
+      (fun s => (s.now, (s.host 0).reaped, s.inflight, s.fan.dpc))) = some (4, true, 0, FanG.DPC.returned) := by
   decide
 
 
